@@ -893,9 +893,27 @@ theorem opGet_eq (s : St) (id key : Nat) (play : Int) (force : Bool) (f t now : 
       else getCore s key play now (mkLoader0 s id key play force f t now)
         (chunkCount s.cfg (chunkStartOf s.cfg (f * nsec)) (t * nsec)) := rfl
 
-theorem getCore_P (s : St) (key : Nat) (play now : Int) (l0 : Loader) (n : Nat) (wf : WF s.cfg)
+/-- `getCore` before the trim goroutine reacts -/
+def getPre (s : St) (key : Nat) (play now : Int) (l0 : Loader) (n : Nat) : St :=
+  let (b, isNew) := match findBucket key s.buckets with
+    | some b => (b, false)
+    | none => ({ key := key, cids := [], lastAccess := 0, play := play }, true)
+  let r := initLoader s.cfg now s.chunks b.cids l0 n
+  let b' : Bucket := { b with cids := r.cids, lastAccess := now, play := play }
+  let l' := runLoader r.l
+  let info : Info := { s.info with buckets := s.info.buckets + (if isNew then 1 else 0),
+                                   chunkLen := s.info.chunkLen + r.fresh * s.cfg.K, chunks := s.info.chunks + r.fresh }
+  { s with chunks := r.chunks, buckets := if isNew then s.buckets ++ [b'] else putBucket b' s.buckets,
+           loaders := s.loaders ++ [l'], info := info, bad := s.bad || r.bad }
+
+theorem getCore_fst (s : St) (key : Nat) (play now : Int) (l0 : Loader) (n : Nat) :
+    (getCore s key play now l0 n).1 = afterUpdate now (getPre s key play now l0 n) := by
+  unfold getCore getPre
+  cases findBucket key s.buckets <;> rfl
+
+theorem getPre_P (s : St) (key : Nat) (play now : Int) (l0 : Loader) (n : Nat) (wf : WF s.cfg)
     (fresh : ∀ l ∈ s.loaders, l.id ≠ l0.id) (e2 : l0.key = key) (e3 : l0.chunks = [])
-    (e4 : OkData s.cfg l0.key l0.timeStart l0.data) (h : PInv s) : PInv (getCore s key play now l0 n).1 := by
+    (e4 : OkData s.cfg l0.key l0.timeStart l0.data) (h : PInv s) : PInv (getPre s key play now l0 n) := by
   have hfresh : ∀ g' ∈ s.loaders.map sig, g'.id ≠ l0.id := by
     intro g' hg'
     simp only [List.mem_map] at hg'
@@ -903,11 +921,10 @@ theorem getCore_P (s : St) (key : Nat) (play now : Int) (l0 : Loader) (n : Nat) 
     exact fresh l hl
   have hci0 : CInv s.cfg (s.loaders.map sig ++ [sig l0]) (ldsOf s.loaders) (bksOf s.buckets) s.chunks :=
     ⟨h.ci.pc, h.ci.lc, fun cid a ha => AwOK_extend (fun g hg => hfresh g hg) (h.ci.aw cid a ha), h.ci.bk⟩
-  unfold getCore
+  unfold getPre
   cases hfb : findBucket key s.buckets with
   | none =>
     simp only []
-    apply afterUpdate_P
     obtain ⟨a, b, c⟩ := initLoader_P (sigs0 := s.loaders.map sig) (lds := ldsOf s.loaders) (bks := bksOf s.buckets)
       wf now s.chunks [] l0 n hfresh hci0 e4 e3 (by intro x hx; cases hx)
     obtain ⟨r1, r2, r3⟩ := sig_runLoader (initLoader s.cfg now s.chunks [] l0 n).l
@@ -931,7 +948,6 @@ theorem getCore_P (s : St) (key : Nat) (play now : Int) (l0 : Loader) (n : Nat) 
     · rw [r2]; exact initLoader_Prog _ _ _ _ _ _ e3
   | some bk =>
     simp only []
-    apply afterUpdate_P
     obtain ⟨hbm, hbk⟩ := findBucket_some _ _ _ hfb
     have hc0 : CidsOK (sig l0) s.chunks bk.cids := by
       intro cid hc
@@ -959,6 +975,12 @@ theorem getCore_P (s : St) (key : Nat) (play now : Int) (l0 : Loader) (n : Nat) 
     · rw [r2, q2, q3]; exact a.own
     · rw [r3, q2, q3]; exact a.pl
     · rw [r2]; exact initLoader_Prog _ _ _ _ _ _ e3
+
+theorem getCore_P (s : St) (key : Nat) (play now : Int) (l0 : Loader) (n : Nat) (wf : WF s.cfg)
+    (fresh : ∀ l ∈ s.loaders, l.id ≠ l0.id) (e2 : l0.key = key) (e3 : l0.chunks = [])
+    (e4 : OkData s.cfg l0.key l0.timeStart l0.data) (h : PInv s) : PInv (getCore s key play now l0 n).1 := by
+  rw [getCore_fst]
+  exact afterUpdate_P _ _ (getPre_P s key play now l0 n wf fresh e2 e3 e4 h)
 
 theorem opGet_P (s : St) (id key : Nat) (play : Int) (force : Bool) (f t now : Int) (wf : WF s.cfg)
     (fresh : ∀ l ∈ s.loaders, l.id ≠ id) (h : PInv s) : PInv (opGet s id key play force f t now).1 := by
@@ -1178,10 +1200,22 @@ theorem finFold_P (s : St) (l : Loader) (first : LChunk) (rest : List LChunk) (o
   · show ((l.chunks.foldl (finChunk s.cfg ok data cells first.pos) _).loaders.map (·.id)).Nodup
     rw [ids_of_sigs, hres.sg, ← ids_of_sigs]; exact h.nd
 
-theorem finApply_P (s : St) (l : Loader) (first : LChunk) (rest : List LChunk) (ok : Bool) (ver : Nat) (now : Int)
-    (hl : l ∈ s.loaders) (hch : l.chunks = first :: rest) (h : PInv s) : PInv (finApply s l first ok ver now) := by
-  unfold finApply
-  apply afterUpdate_P
+/-- `finApply` before the trim goroutine reacts -/
+def finPre (s : St) (l : Loader) (first : LChunk) (ok : Bool) (ver : Nat) : St :=
+  let n := l.chunks.length * s.cfg.K
+  let fromSec := (getChunk s.chunks first.cid).start / nsec
+  let cells := stubCells s.cfg l.key ver l.id s.tick fromSec n
+  let data := if ok then setRange l.data first.pos cells else l.data
+  let loaders1 := s.loaders.map (fun x => if x.id == l.id then ownMessage ok data x else x)
+  let r := l.chunks.foldl (finChunk s.cfg ok data cells first.pos) { chunks := s.chunks, loaders := loaders1, dsize := 0, start := first.pos }
+  { s with chunks := r.chunks, loaders := r.loaders, info := { s.info with size := s.info.size + r.dsize } }
+
+theorem finApply_eq (s : St) (l : Loader) (first : LChunk) (ok : Bool) (ver : Nat) (now : Int) :
+    finApply s l first ok ver now = afterUpdate now (finPre s l first ok ver) := rfl
+
+theorem finPre_P (s : St) (l : Loader) (first : LChunk) (rest : List LChunk) (ok : Bool) (ver : Nat)
+    (hl : l ∈ s.loaders) (hch : l.chunks = first :: rest) (h : PInv s) : PInv (finPre s l first ok ver) := by
+  unfold finPre
   simp only []
   have hlds : (sig l, l.chunks) ∈ ldsOf s.loaders := by simp only [ldsOf, List.mem_map]; exact ⟨l, hl, rfl⟩
   obtain ⟨_, hfst, _⟩ := h.ci.lc _ hlds first (by rw [hch]; exact List.mem_cons_self ..)
@@ -1225,6 +1259,11 @@ theorem finApply_P (s : St) (l : Loader) (first : LChunk) (rest : List LChunk) (
       exact hdata
     · exact h.pl x hx
 
+
+theorem finApply_P (s : St) (l : Loader) (first : LChunk) (rest : List LChunk) (ok : Bool) (ver : Nat) (now : Int)
+    (hl : l ∈ s.loaders) (hch : l.chunks = first :: rest) (h : PInv s) : PInv (finApply s l first ok ver now) := by
+  rw [finApply_eq]
+  exact afterUpdate_P _ _ (finPre_P s l first rest ok ver hl hch h)
 
 /-! ### the remaining operations and the trace -/
 
